@@ -3,17 +3,23 @@ From Coq Require Import ZArith List Bool.
 From Coq Require String.
 From PS.model Require Import Smt Enc Ind Prog.
 From PS.spec Require Import Spec.
-From PS.proofs Require Import Base Cons_proof Res_proof Wf_proof C06_proof Examples.
+From PS.proofs Require Import Base SortNoDup Cons_proof C04_periodic C04_distance Res_proof Wf_proof C06_proof Examples Examples4.
 Import ListNotations.
 Open Scope Z_scope.
 
 (* PARTIAL.  Proved for every mandatory, non-operand resource constraint, over the busy intervals the
    resource had when the constraint was created: ResourceUnavailable (no overlap with any window),
    WorkLoad (sum over busy intervals of the overlap with each window = / <= / >= bound, windows
-   with lo <= hi), ResourceInterrupted on tasks that are not of variable duration, SameWorkers,
-   DistinctWorkers.  Swept only (spec_C04_swept; refuted or proof pending): busy intervals added
-   after the constraint (known finding F07), the variable-duration clauses of ResourceInterrupted,
-   the periodic classes (F08, F36), ResourceTasksDistance / ResourceNonDelay. *)
+   with lo <= hi), ResourceInterrupted and ResourcePeriodicallyInterrupted on tasks that are not of variable duration,
+   ResourcePeriodicallyUnavailable (windows 0 <= lo < hi <= period; the part of the busy interval inside the active
+   range [start, end) meets no repetition of the window -- C04_periodic_pointwise below gives the instant-by-instant
+   reading), ResourceNonDelay and ResourceTasksDistance (for two consecutive assigned busy intervals of the resource,
+   when every busy interval is parked or assigned over a non-empty span and they are pairwise disjoint -- what C02 gives
+   on a worker -- the gap is 0, resp. compares with the distance as the mode says, inside the listed intervals if any),
+   SameWorkers, DistinctWorkers.
+   Swept only (spec_C04_swept; refuted): busy intervals added after the constraint was created (known finding F07);
+   the variable-duration clauses of ResourceInterrupted.  Unspecified: variable-duration tasks under
+   ResourcePeriodicallyInterrupted. *)
 Theorem C04_resource_constraints_partial : forall (st : pstate) (e : env),
   sat e (initialize st) -> forall k f, In (k, f) (spec_C04 st) -> feval e f = true.
 Proof. exact C04_sound. Qed.
@@ -29,6 +35,28 @@ Theorem C04_overlap_term : forall e s t lo hi,
   teval e (t_overlap s t lo hi) = Z.max 0 (Z.min (teval e t) hi - Z.max (teval e s) lo).
 Proof. exact overlap_eval. Qed.
 Print Assumptions C04_overlap_term.
+(* the closed form used by the periodic clauses says, instant by instant: no instant of the busy interval clipped to
+   the active range lies in a repetition offset + k * period + [lo, hi) of the window *)
+Theorem C04_periodic_pointwise : forall e bs be lo hi P start off end_, 0 < P -> 0 <= lo -> lo < hi -> hi <= P ->
+  feval e (per_free bs be lo hi P start off end_) = true <->
+  (forall tau, Z.max (teval e bs) start <= tau < clipped_end (teval e be) end_ -> ~ in_window lo hi P off tau).
+Proof. exact per_free_pointwise. Qed.
+Print Assumptions C04_periodic_pointwise.
+(* consecutive assigned busy intervals sit at consecutive ranks of the sorted starts and sorted ends *)
+Theorem C04_consecutive_in_sorted : forall (P : list (Z * Z)) A B pa pb,
+  Permutation.Permutation A (map fst P) -> Sorted.StronglySorted Z.lt A ->
+  Permutation.Permutation B (map snd P) -> Sorted.StronglySorted Z.lt B ->
+  (forall p, In p P -> parked p \/ assigned p) ->
+  (forall p q, In p P -> In q P -> assigned p -> assigned q -> fst p <> fst q -> snd p <= fst q \/ snd q <= fst p) ->
+  In pa P -> In pb P -> assigned pa -> fst pa < fst pb ->
+  (forall pc, In pc P -> ~ (0 <= fst pc /\ fst pa < fst pc /\ fst pc < fst pb)) ->
+  exists i, (S i < List.length A)%nat /\ nth (S i) A 0 = fst pb /\ nth i B 0 = snd pa.
+Proof. exact consecutive_in_sorted. Qed.
+Print Assumptions C04_consecutive_in_sorted.
+Theorem C04_premises_satisfiable : exists st, reaches ex4_prog st /\ sat ex4_env (initialize st)
+  /\ List.length (spec_C03 st ++ spec_C04 st) = 31%nat /\ ex4_live st = 18%nat.
+Proof. exact ex4_sat. Qed.
+Print Assumptions C04_premises_satisfiable.
 Theorem C04_hypotheses_satisfiable : exists st, reaches ex2_prog st /\ sat ex2_env (initialize st)
   /\ List.length (ps_cons st) = 18%nat /\ List.length (spec_all st) = 86%nat.
 Proof. exact ex2_sat. Qed.
